@@ -482,7 +482,10 @@ func sortHV(l []HV) {
 	}
 }
 
-// deep: nest one element inside many copies of itself.
+// deep: nest one element inside many copies of itself. Decoding a deeply
+// nested calendar-data / address-data selection takes time quadratic in the
+// depth in the pinned tree (about 4 s at depth 10 000), so the query and
+// multiget families stop at 10 001; the other families go to 100 000.
 func (g *generator) deep(xs []seedDoc) {
 	depths := []int{10, 100, 1000, 2000}
 	if g.c.Thorough() {
@@ -491,12 +494,16 @@ func (g *generator) deep(xs []seedDoc) {
 	for _, sd := range xs {
 		rts := routesFor(sd.Fam)
 		n := len(elems(sd.Tree))
+		linear := sd.Fam == "propfind" || sd.Fam == "propertyupdate" || strings.HasPrefix(sd.Fam, "mkcol")
 		for _, d := range depths {
 			step := 1
 			if d > 2000 || !g.c.Thorough() {
 				step = 1 + n/4
 			}
 			for i := 0; i < n; i += step {
+				if d > 10001 && !linear && i > 0 {
+					break
+				}
 				for _, closed := range []bool{true, false} {
 					sd, d, i, closed := sd, d, i, closed
 					g.emit(func() *Case { return rts[0].mk("deep-nesting", deepNest(sd, i, d, closed), i) })
